@@ -30,6 +30,7 @@ package moss
 // ---- page arithmetic (C04, C05) ----------------------------------------------
 
 //@ func pageAlignCeil(pos int64) int64
+//@   attr arith native
 //@   props C04 C05
 //@   overflow check
 //@   requires 0 <= pos && pos <= 4611686018427387904 && StorePageSize > 0 && StorePageSize <= 1073741824
@@ -37,6 +38,7 @@ package moss
 //@   ensures @least pos <= result && result < pos + StorePageSize
 
 //@ func pageAlignFloor(pos int64) int64
+//@   attr arith native
 //@   props C04 C05
 //@   overflow check
 //@   requires 0 <= pos && StorePageSize > 0
@@ -44,6 +46,7 @@ package moss
 //@   ensures @greatest result <= pos && pos < result + StorePageSize
 
 //@ func pageOffset(pos, pageSize int64) int64
+//@   attr arith native
 //@   props C04
 //@   overflow check
 //@   requires 0 <= pos && pageSize > 0
@@ -209,3 +212,41 @@ package moss
 //@   ensures @start0 result == nil && keyLength == 0 && valLength == 0 ==> kstart(a, old(segLen(a))) == 0
 //@   ensures @earlier result == nil ==> (forall i int :: 0 <= i && i < old(segLen(a)) ==>
 //@       kstart(a, i) == old(kstart(a, i)) && klen(a, i) == old(klen(a, i)) && vlen(a, i) == old(vlen(a, i)) && kop(a, i) == old(kop(a, i)))
+
+// ---- building the key index (C14) -------------------------------------------------------
+
+// Shape of an index under construction: the first numKeys entries are laid out
+// back to back in data[0:numKeyBytes].
+//@ pure func idxShape(s *segmentKeysIndex) bool = s != nil && s.hop >= 1 && 0 <= s.numKeys && s.numKeys <= s.numIndexableKeys &&
+//@     s.numIndexableKeys == len(s.offsets) && 0 <= s.numKeyBytes && s.numKeyBytes <= len(s.data) && len(s.data) < 4294967296 &&
+//@     (forall h int :: 0 <= h && h < s.numKeys ==> 0 <= idxBeg(s, h) && idxBeg(s, h) <= idxEnd(s, h) && idxEnd(s, h) <= s.numKeyBytes)
+
+//@ func newSegmentKeysIndex(quota int, srcKeyCount int, keyAvgSize int) *segmentKeysIndex
+//@   props C14
+//@   requires 0 <= quota && quota < 4294967296 && srcKeyCount >= 0 && keyAvgSize >= 0 && keyAvgSize < 4294967296
+//@   ensures @fresh result != nil ==> fresh(result) && fresh(arr(result.data)) && fresh(arr(result.offsets)) && arr(result.data) != 0 && arr(result.offsets) != 0
+//@   ensures @shape result != nil ==> idxShape(result) && result.numKeys == 0 && result.numKeyBytes == 0 && result.srcKeyCount == srcKeyCount
+
+//@ func (s *segmentKeysIndex) add(keyIdx int, key []byte) bool
+//@   props C14
+//@   requires idxShape(s) && keyIdx >= 0 && arr(key) != arr(s.data)
+//@   modifies s.numKeys, s.numKeyBytes, elems(s.offsets), elems(s.data)
+//@   ensures @shape idxShape(s)
+//@   ensures @skipped (!result || keyIdx % s.hop != 0) ==> s.numKeys == old(s.numKeys) && s.numKeyBytes == old(s.numKeyBytes)
+//@   ensures @added result && keyIdx % s.hop == 0 ==> s.numKeys == old(s.numKeys) + 1 && s.numKeyBytes == old(s.numKeyBytes) + len(key) &&
+//@       idxRank(s, old(s.numKeys)) == rank(key)
+//@   ensures @earlier forall h int :: 0 <= h && h < old(s.numKeys) ==> idxRank(s, h) == old(idxRank(s, h))
+
+//@ func (a *segment) buildIndex(quota int, minKeyBytes int)
+//@   props C14
+//@   requires segValid(a) && segSorted(a) && a.index == nil && 0 <= quota && quota < 4294967296 &&
+//@       a.totKeyByte < 4611686018427387904 && (segLen(a) > 0 ==> a.totKeyByte / segLen(a) <= 16777215)
+//@   modifies a.index
+//@   ensures @indexOK indexOK(a)
+//@   loop 1: modifies sindex.numKeys, sindex.numKeyBytes, elems(sindex.offsets), elems(sindex.data), scursor.curr
+//@   loop 1: invariant idxShape(sindex) && sindex.srcKeyCount == segLen(a) && arr(sindex.data) != arr(a.buf) && a.index == nil
+//@   loop 1: invariant cursorOK(scursor) && scursor.s == a && scursor.start == 0 && scursor.end == segLen(a)
+//@   loop 1: invariant scursor.curr == sindex.numKeys * sindex.hop
+//@   loop 1: invariant forall h int :: 0 <= h && h < sindex.numKeys ==> idxRank(sindex, h) == keyRank(a, h * sindex.hop)
+//@   loop 1: invariant sindex.numKeys > 0 ==> (sindex.numKeys - 1) * sindex.hop < segLen(a)
+//@   loop 1: lemma mulsucc(sindex.numKeys, sindex.hop)
